@@ -331,7 +331,9 @@ def campaign(trace: dict, make_system, probes: Counter, yield_fn=None) -> Violat
         # ---- storage faults (separate configuration): load must raise ------------------------------------------------------
         if trace.get("ckpt_faults") and rng.random() < 0.5:
             B = make_system(params_disk)
-            f = make_ckpt_fault(rng, sd_disk, len(trace["groups"]))
+            # (content choices use their own stream: ranks hold different state dicts and must not desynchronise the
+            # control-flow stream that decides how many systems every rank constructs)
+            f = make_ckpt_fault(random.Random(f"{trace.get('campaign_seed', 0)}-{k}"), sd_disk, len(trace["groups"]))
             if f is not None:
                 bad, desc = f
                 probes["ckpt_fault_injected"] += 1
@@ -508,7 +510,7 @@ def execute(trace: dict) -> Outcome:
                 ctx.update(exc_type=type(r.exc).__name__, exc=str(r.exc)[:300], tb=r.exc_tb[-600:])
             if sim.outcome == "deadlock":
                 ctx["blocked"] = sim.deadlock_info
-            v = Violation(ID, "resume_param_diverges" if sim.outcome == "ok" else "unexpected_exception", -1, ctx)
+            v = Violation(ID, "deadlock" if sim.outcome == "deadlock" else "unexpected_exception", -1, ctx)
     else:
         v = campaign(trace, lambda init: System(trace, init, None), probes)
     if trace["config"]["preconditioner"]["kind"] == "soap":
